@@ -35,6 +35,23 @@ def boundary_programs():
     return out
 
 
+def inline_asm_programs():
+    """sized inline assembly inside inline functions, its text mentioning names the compiler generates or
+    renames when it copies the function into a caller: the copy must keep the declared size"""
+    out = {}
+    k = 0
+    for ref in ('.endof', '.ifend1', '.for1', 'main', 'poll', '.endofinline1', '.fix1', 'nothing'):
+        for n in (0, 1, 2, 5, 8, 130):
+            for shape in ('void main() { poll(); a++; }', 'void main() { if (a) { poll(); a++; } poll(); }',
+                          'inline void twice() { poll(); poll(); } void main() { twice(); a++; }'):
+                tag = 'tg%d' % k
+                src = ('unsigned char a;\ninline void poll() { a++; asm("\\tLDA $3C\\n\\tBMI %s ; %s\\n\\tINC $81", %d); }\n%s\n'
+                       % (ref, tag, n, shape))
+                out['inlasm%d' % k] = (src, {tag: n})
+                k += 1
+    return out
+
+
 def size_pass(ctx, n_prog, rng, levels, opts_list, extra=None):
     viol = []
     nfun = 0
@@ -45,8 +62,7 @@ def size_pass(ctx, n_prog, rng, levels, opts_list, extra=None):
     srcs = {k: p.source() for k, p in progs.items()}
     decls = {k: getattr(p, 'asm_decl', {}) for k, p in progs.items()}
     for k, v in (extra or {}).items():
-        srcs[k] = v
-        decls[k] = {}
+        srcs[k], decls[k] = v if isinstance(v, tuple) else (v, {})
     comp = compile_variants(srcs, {O: [O] for O in levels})
     recs = {}
     info = {}
@@ -102,7 +118,7 @@ def run(ctx):
     ctx.cov['distinct_nontrivial'] = len(table)
     levels = ['-O0', '-O1'] if quick else ['-O0', '-O1', '-O2', '-O3']
     opts = [dict(), dict(superchip=True), dict(hw=True, inline=True, asm_sized=True), dict(bait=True, superchip=True), dict(hw=True, inline=True, asm_sized=True, calls=True, max_stmts=14)]
-    viol, nfun, cells, nprog = size_pass(ctx, 300 if quick else 6000, rng, levels, opts, extra=boundary_programs())
+    viol, nfun, cells, nprog = size_pass(ctx, 300 if quick else 6000, rng, levels, opts, extra=dict(list(boundary_programs().items()) + list(inline_asm_programs().items())))
     ctx.cov['programs'] = nprog
     ctx.cov['correspondence']['corr-S sizes'] = {'functions_reassembled': nfun, 'violations': len(viol),
                                                   'instruction_cells_seen': len(cells)}
